@@ -98,6 +98,8 @@ impl MonotonicTimestampGenerator {
     // then this method will increment the last timestamp.
     fn compute_next(&self, last: i64) -> i64 {
         let current = SystemTime::now().duration_since(UNIX_EPOCH);
+        #[cfg(scylla_verif)]
+        let current = crate::verif_hooks::clock(current);
         if let Ok(cur_time) = current {
             // We have generated a valid timestamp
             let u_cur = cur_time.as_micros() as i64;
@@ -146,6 +148,8 @@ impl TimestampGenerator for MonotonicTimestampGenerator {
         loop {
             let last = self.last.load(Ordering::SeqCst);
             let cur = self.compute_next(last);
+            #[cfg(scylla_verif)]
+            crate::verif_hooks::pause("ts.between_load_and_cas");
             if self
                 .last
                 .compare_exchange(last, cur, Ordering::SeqCst, Ordering::SeqCst)
